@@ -34,13 +34,26 @@ def _same(a, b):
     return a == b
 
 
-@harness("C09.net", quick=[dict(nif=n, namelen=L) for n, L in ((0, 1), (1, 1), (1, 3), (2, 1), (2, 3))],
+@harness("C09.net", quick=[dict(nif=n, namelen=L) for n, L in ((0, 1), (1, 1), (1, 3), (2, 1), (2, 3))] + [dict(nif=2, namelen=0, raw=[b"r\xe9seau0", b"eth0"]), dict(nif=1, namelen=0, raw=[b"\xff\xfe\x80"])],
          thorough=[dict(nif=n, namelen=L) for n in (0, 1, 2, 3, 4) for L in (1, 2, 4, 6, 8, 15) if (n or L == 1) and n * L <= 24])
-def net(ctx, nif, namelen):
+def net(ctx, nif, namelen, raw=None):
+    """raw: concrete interface names given as bytes (the kernel allows any byte but '/', ':' and white space in a name), decoded the
+    way psutil decodes every other name it reads from /proc: file-system encoding with surrogateescape"""
     k = simk.Kernel(ctx)
     vals, names = [], []
+    if raw is not None:
+        from psv.simk import _common
+
+        content = b"Inter-|   Receive  |  Transmit\n face |bytes packets|bytes packets\n"
+        for i, rn in enumerate(raw):
+            v = [ctx.int(f"c{i}_{j}", 0, 2**64 - 1) for j in range(16)]
+            names.append(rn.decode(_common.ENCODING, _common.ENCODING_ERRS))
+            vals.append(v)
+            content += b"  " + rn + b": " + b" ".join(k.num(x) for x in v) + b"\n"
+        k.files["/proc/net/dev"] = content
+        nif = len(raw)
     content = "Inter-|   Receive                                                |  Transmit\n face |bytes    packets errs drop fifo frame compressed multicast|bytes    packets errs drop fifo colls carrier compressed\n"
-    for i in range(nif):
+    for i in range(nif if raw is None else 0):
         nm = seq.fresh(ctx, f"nm{i}", namelen, "str", lo=33, hi=126)     # printable, no whitespace
         if ctx.symbolic:
             for prev in names:
@@ -52,7 +65,8 @@ def net(ctx, nif, namelen):
         vals.append(v)
         tight = ctx.flag(f"tight{i}")         # the kernel prints `%6s:%8llu`: no blank after the colon once the counter has 8+ digits
         content = content + "  " + nm + (":" if tight else ": ") + " ".join(k.num(x, text=True) for x in v) + "\n"
-    k.files["/proc/net/dev"] = content
+    if raw is None:
+        k.files["/proc/net/dev"] = content
     with k.installed():
         per = psutil.net_io_counters(pernic=True, nowrap=False)
         tot = psutil.net_io_counters(pernic=False, nowrap=False)
